@@ -163,6 +163,7 @@ static Plan gen_c17(uint64_t seed, const std::string &tier) {
             default: break;
             }
             e.argv = {a}; e.success = false; e.err = 2; e.ret = -1;
+            if (r.chance(1, 10)) { Fault f; f.kind = r.chance(3, 4) ? "write" : "close"; f.nth = 0; f.err = r.chance(1, 2) ? 28 : 5; e.faults.push_back(f); }   // this writer's own record may be lost or cut - nobody else's
             calls.push_back(e);
         }
         b.threads.push_back(calls);
@@ -184,9 +185,10 @@ static Verdict oracle_c17(const Plan &p, const RunResult &r) {
             if (d.sink.compare(0, 5, "file:") != 0 && d.sink != "tty" && d.sink != "null") continue;
             if (!(d.flags & O_APPEND)) return bad("not-append-mode", at + "descriptor not opened with O_APPEND");
             if (d.flags & O_TRUNC) return bad("truncating-open", at + "descriptor opened with O_TRUNC");
-            if (d.writes != 1) return bad("record-split", at + "delivered with " + std::to_string(d.writes) + " write calls");
+            if (d.writes != 1 && cv.op->faults.empty()) return bad("record-split", at + "delivered with " + std::to_string(d.writes) + " write calls");
             if (d.sink == "file:" + path) recs.push_back(d.bytes);
         }
+        if (!cv.op->faults.empty()) continue;   // a writer whose own write or close failed may lose its own record; everybody else's must be there
         RecJudge j = judge_record(cv, r);
         if (j.v.violated) { j.v.cls = "writer-" + j.v.cls; return j.v; }
     }
@@ -243,6 +245,22 @@ static Plan gen_c10(uint64_t seed, const std::string &) {
     RunResult census = sim_run(cp);
     int N = census.sched_points;
     p.extra.set("census_points", N); p.extra.set("enumeration_complete", N <= C10_SLOTS - 1);
+    if (slot > N && slot % 5 == 4) {
+        // two threads of the parent fork at the same time (each one or two times) while a third one is inside its own wrapped calls; whatever the
+        // fork handlers share is then used by two forks at once. The first call makes the library register its handlers.
+        Rng pr(seed * 131 + 5);
+        ExecOp first = f.ex; first.path = "/bin/parentInit"; first.argv = {"parentInit"}; p.ops.push_back(op_exec(first));
+        Op b; b.op = "Batch"; b.policy = (int)pr.below(2); b.pct_d = 3; b.sched_seed = seed * 977 + 13; b.child_ex = f.child_ex;
+        int nf = 2 + (int)pr.below(2);
+        for (int t = 0; t < nf + 1; t++) {
+            std::vector<ExecOp> calls; int nc = 1 + (int)pr.below(2);
+            for (int k = 0; k < nc; k++) { ExecOp x = f.ex; x.path = "/bin/parentF" + std::to_string(t) + "_" + std::to_string(k); x.argv = {"parentF", std::to_string(t)}; if (t < nf) x.forks_before = 1 + (int)pr.below(2); calls.push_back(x); }
+            b.threads.push_back(calls);
+        }
+        p.extra.set("mode", "forkers" + std::to_string(nf));
+        p.ops.push_back(b);
+        return p;
+    }
     if (slot == 0) { f.fork_point = 1 << 30; p.extra.set("mode", "census"); }
     else if (slot <= N) { f.fork_point = slot; p.extra.set("mode", "point"); }
     else {
@@ -260,7 +278,7 @@ static Plan gen_c10(uint64_t seed, const std::string &) {
 }
 static Verdict oracle_c10(const Plan &p, const RunResult &r) {
     const J &c = r.child;
-    if (c.is_null()) return bad("harness", "no report from the forked child");
+    if (c.is_null() && p.extra.gets("mode").compare(0, 7, "forkers") != 0) return bad("harness", "no report from the forked child");
     auto child_ok = [&](const J &rep, const std::string &who) -> Verdict {
         if (!rep.getb("completed")) return bad("child-" + rep.gets("abort_class", "stuck"), who + " cannot finish its exec call: " + rep.gets("abort_detail"));
         if (rep.at("obs").geti("real_calls") != 1) return bad("child-exec-count", who + " reached the real exec " + std::to_string(rep.at("obs").geti("real_calls")) + " times");
@@ -271,8 +289,14 @@ static Verdict oracle_c10(const Plan &p, const RunResult &r) {
         if (all.find("T1T ") == std::string::npos) return bad("child-inherited-threads", who + " still sees per-thread state of parent threads that do not exist in it: " + show(all, 60));
         return ok();
     };
-    Verdict v = child_ok(c, "forked child");
+    Verdict v;
+    if (p.extra.gets("mode").compare(0, 7, "forkers") == 0) {
+        // one report per fork that had a child (a fork next to a thread that has just finished is acted out in the parent only)
+        for (auto &rep : c.a) { v = child_ok(rep, "child forked by parent thread " + std::to_string(rep.geti("forker"))); if (v.violated) return v; }
+    } else {
+    v = child_ok(c, "forked child");
     if (v.violated) return v;
+    }
     if (c.has("grandchild")) { v = child_ok(c.at("grandchild"), "grandchild"); if (v.violated) return v; }
     // the parent's thread B is unaffected
     for (auto &cv : calls_of(p)) {
@@ -289,8 +313,10 @@ static Verdict abort_c10(const Plan &, const RunResult &r) { return bad("parent-
 static void describe_c10(const Plan &p, const RunResult &r, J &line) {
     const Op &f = p.ops.back();
     // who owned the registry mutex at the fork? (from the child's report: a deadlock names the owner)
-    line.set("sig", p.extra.gets("mode") + "|k" + std::to_string(f.fork_point > 100000 ? -1 : f.fork_point) + "|" + model_config(calls_of(p)[0].w).output);
-    line.set("nontrivial", f.fork_point <= p.extra.geti("census_points"));
+    bool forkers = p.extra.gets("mode").compare(0, 7, "forkers") == 0;
+    line.set("sig", p.extra.gets("mode") + "|k" + std::to_string(forkers ? (int)(f.sched_seed % 1000) : f.fork_point > 100000 ? -1 : f.fork_point) + "|" + model_config(calls_of(p)[0].w).output);
+    line.set("nontrivial", forkers || f.fork_point <= p.extra.geti("census_points"));
+    if (forkers) { line.set("p_concurrent_forkers", true); if (r.counters.count("batch-fork-with-child")) line.set("p_concurrent_forkers_with_child", true); }
     if (p.extra.gets("mode") == "census") { line.set("p_census", true); line.set("census_points", p.extra.geti("census_points")); }
     if (p.extra.gets("mode") == "grandchild") line.set("p_grandchild", true);
     if (p.extra.gets("mode") == "window") line.set("p_fork_window", true);
